@@ -411,14 +411,14 @@ func (r *runner) one(src string, kind string, feats map[string]bool) {
 	}
 	// default settings (registers on): differences are other properties' business, only counted
 	dflt := runImpl(src, false)
-	if dflt.obs != impl.obs {
+	if dflt.obs != impl.obs && dflt.val != "timeout" {
 		c.Count("registers-on-vs-off-differ")
 		if len(r.regDiffs) < 10 {
 			r.regDiffs = append(r.regDiffs, fmt.Sprintf("src(hex)=%s off=%s on=%s", Hx([]byte(src)), clip(impl.obs, 80), clip(dflt.obs, 80)))
 		}
 	}
 	// determinism of the implementation on a fresh state (model-free)
-	if again := runImpl(src, true); again.obs != impl.obs {
+	if again := runImpl(src, true); again.obs != impl.obs && again.val != "timeout" {
 		c.Fail("nondeterministic:"+constructs(prog), "EVAL "+Hx([]byte(src)), fmt.Sprintf("first %s then %s", impl.obs, again.obs))
 	}
 	c.Count("kind=" + kind)
@@ -901,7 +901,7 @@ func runC01(c *Ctx) {
 	for _, src := range corpus {
 		r.one(src, "corpus", map[string]bool{"corpus": true, "a": true, "b": true})
 	}
-	nprog, nwrap := 3000, 500
+	nprog, nwrap := 10000, 1500
 	if c.Thorough() {
 		nprog, nwrap = 60000, 5000
 	}
